@@ -261,25 +261,75 @@ def r95(repo, ctx):
               'the reset clears the composition-set cache, the matrix composition set and the sampled points', f'the reset clears only {sorted(cleared)}')
 
 
+def _uniform_polarity(test, Tn):
+    """True: the test holds only when all entries of Tn are equal; False: the test fails only then; None: not recognised"""
+    neg = False
+    while isinstance(test, ast.UnaryOp) and isinstance(test.op, ast.Not):
+        test, neg = test.operand, not neg
+    pol = None
+    if isinstance(test, ast.Compare) and len(test.ops) == 1:
+        l, op, r = test.left, test.ops[0], test.comparators[0]
+        swap = {ast.Lt: ast.Gt, ast.Gt: ast.Lt, ast.LtE: ast.GtE, ast.GtE: ast.LtE}
+        if isinstance(l, ast.Constant) and not isinstance(r, ast.Constant):
+            l, r = r, l
+            op = swap.get(type(op), type(op))()
+        ls = U.src(l).replace(' ', '')
+        k = r.value if isinstance(r, ast.Constant) and isinstance(r.value, (int, float)) and not isinstance(r.value, bool) else None
+        uniq = ls in (f'len(np.unique({Tn}))', f'np.unique({Tn}).size', f'len(set({Tn}))', f'np.unique({Tn}).shape[0]')
+        spread = ls in (f'np.ptp({Tn})', f'np.amax({Tn})-np.amin({Tn})', f'np.max({Tn})-np.min({Tn})', f'{Tn}.max()-{Tn}.min()')
+        import operator as _op
+        fn = {ast.Eq: _op.eq, ast.NotEq: _op.ne, ast.Lt: _op.lt, ast.LtE: _op.le, ast.Gt: _op.gt, ast.GtE: _op.ge}.get(type(op))
+        if (uniq or spread) and k is not None and fn is not None:
+            # the quantity is 1 (resp. 0) exactly for a uniform array: tabulate the test on it and on non-uniform values
+            same, others = (1, (2, 3, 4, 7)) if uniq else (0, (1e-9, 0.5, 1, 10))
+            if fn(same, k) and not any(fn(o, k) for o in others):
+                pol = True
+            elif not fn(same, k) and all(fn(o, k) for o in others):
+                pol = False
+            else:
+                pol = 'mixed'
+        elif k is None and {ls, U.src(r).replace(' ', '')} in ({f'np.amax({Tn})', f'np.amin({Tn})'}, {f'np.max({Tn})', f'np.min({Tn})'}, {f'{Tn}.max()', f'{Tn}.min()'}):
+            if isinstance(op, ast.Eq):
+                pol = True
+            elif isinstance(op, ast.NotEq):
+                pol = False
+    elif isinstance(test, ast.Call) and (U.call_name(test) or '') in ('np.all', 'np.allclose', 'np.array_equal') and test.args:
+        a0 = test.args[0]
+        if U.call_name(test) == 'np.all' and isinstance(a0, ast.Compare) and len(a0.ops) == 1 and isinstance(a0.ops[0], ast.Eq) \
+                and {U.src(a0.left), U.src(a0.comparators[0])} == {Tn, f'{Tn}[0]'}:
+            pol = True
+        elif U.call_name(test) in ('np.allclose', 'np.array_equal') and len(test.args) >= 2 and {U.src(test.args[0]), U.src(test.args[1])} == {Tn, f'{Tn}[0]'} \
+                and not test.keywords:
+            pol = True if U.call_name(test) == 'np.array_equal' else None
+    if pol is None or pol == 'mixed':
+        return pol
+    return (not pol) if neg else pol
+
+
 def r96(repo, ctx):
     q = 'BinaryThermodynamics.getInterfacialComposition'
     f = repo.func(BT, q)
     Tn = U.params(f)[1]
     n = 0
     for s in ast.walk(f):
-        if isinstance(s, ast.If):
-            uses_first = any(isinstance(a, ast.Subscript) and isinstance(a.value, ast.Name) and a.value.id == Tn and U.is_const(a.slice, 0) for st in s.body for c in U.calls(st) for a in c.args)
-            if not uses_first:
-                continue
-            n += 1
-            whole = False
-            for c in U.calls(s.test):
-                nm = U.call_name(c) or ''
-                if nm in ('np.unique', 'np.all', 'np.allclose', 'np.ptp', 'set', 'np.array_equal', 'np.isclose', 'np.amax', 'np.amin', 'np.max', 'np.min') and any(Tn in U.names_in(a) for a in c.args):
-                    whole = True
-            ctx.check(whole, 'R9.6', BT, q, s, 'the single batched evaluation at T[0] is guarded by a predicate over the whole temperature array',
-                      f'the batched evaluation at {Tn}[0] is guarded by a test that inspects only some entries of {Tn} ({U.src(s.test)}): a point inside an array is evaluated at another temperature than the same point alone',
-                      construct=U.src(s.test))
+        if isinstance(s, (ast.If, ast.IfExp)):
+            body = s.body if isinstance(s, ast.If) else [s.body]
+            orelse = s.orelse if isinstance(s, ast.If) else [s.orelse]
+            for branch, taken_when in ((body, True), (orelse, False)):
+                uses_first = any(isinstance(a, ast.Subscript) and isinstance(a.value, ast.Name) and a.value.id == Tn and U.is_const(a.slice, 0) for st in branch for c in U.calls(st) for a in c.args)
+                if not uses_first:
+                    continue
+                n += 1
+                whole = False
+                for c in U.calls(s.test):
+                    nm = U.call_name(c) or ''
+                    if nm in ('np.unique', 'np.all', 'np.allclose', 'np.ptp', 'set', 'np.array_equal', 'np.isclose', 'np.amax', 'np.amin', 'np.max', 'np.min') and any(Tn in U.names_in(a) for a in c.args):
+                        whole = True
+                pol = _uniform_polarity(s.test, Tn)
+                ctx.check(whole and (pol is None or pol == taken_when), 'R9.6', BT, q, s, 'the single batched evaluation at T[0] is taken only when a predicate over the whole temperature array says all temperatures are equal',
+                          (f'the batched evaluation at {Tn}[0] is guarded by a test that inspects only some entries of {Tn} ({U.src(s.test)}): a point inside an array is evaluated at another temperature than the same point alone'
+                           if not whole else f'the batched evaluation at {Tn}[0] is taken when the temperatures are NOT all equal ({U.src(s.test)} selects the other branch for a uniform array)'),
+                          construct=U.src(s.test))
     ctx.floor('R9.6', n, 1)
 
 
